@@ -8,7 +8,8 @@ naturals as a shape (`ints l`), any natural block size / merge limit / dimension
 model function is a theorem about the code as translated today (`gen_*` theorems below spell out some).
 When the source changes behaviour, `Gen/Src.lean` changes and the corresponding proof stops type-checking.
 
-Theorems are grouped by the property whose check builds them: namespace `GenProps.C06`, `GenProps.C10`
+Theorems are grouped by the property whose check builds them: namespaces `GenProps.C02`, `.C05`, `.C06`, `.C07`,
+`.C10`, `.C12`, `.C13` (a check passes `extra_props=("Gen",)` and gets the theorems of its own namespace)
 (`GenProps.C13`: the padding count, available to the C13 check through `lean_stage(extra_props=("Gen",))`).
 Helper lemmas are in `Lemmas/GenBridge.lean`.
 -/
@@ -65,6 +66,53 @@ theorem blocks_metadata_bridge (blockSize : Nat) (shape : List Nat) :
         ints m.blocksPerLargeAxis, (m.blocksAxis : Int))) :=
   blocksMetadata_bridge blockSize shape
 
+
+/-- `Preconditioner._preconditioner_shape` as translated: `[dim, _precond_dim(rank, dim)]`. -/
+theorem preconditioner_shape_bridge (c : Int) (d : Nat) :
+    Gen.preconditionerShape c (d : Int) = [(d : Int), ((Shapes.precondDim c.natAbs d : Nat) : Int)] :=
+  preconditionerShape_bridge c d
+
+/-- `Preconditioner.shapes_for_preconditioners` as translated (loop over `itertools.product(*split_sizes)`,
+`map(self._preconditioner_shape, t / t[:-1] / t[-1:])`) = `Shapes.shapesForPreconditioners`' body for ANY list of
+per-axis size lists, every preconditioner type and every integer compression rank; pairs appear as 2-lists. -/
+theorem shapes_for_preconditioners_bridge (ss : List (List Nat)) (pt : Shapes.PType) (c : Int) :
+    Gen.shapesForPreconditioners (ss.map ints) (ptypeCode pt) c =
+      ((Shapes.cartesian ss).flatMap fun t => (Shapes.blockPrecondDims pt t).map fun d => (d, Shapes.precondDim c.natAbs d)).map
+        (fun p => [(p.1 : Int), (p.2 : Int)]) :=
+  shapesForPreconditioners_bridge ss pt c
+
+/-- the same composed with `BlockPartitioner.__init__` as translated: the model's `shapesForPreconditioners`. -/
+theorem shapes_for_preconditioners_of_partitioner (shape : List Nat) (b : Nat) (pt : Shapes.PType) (c : Int) :
+    Gen.shapesForPreconditioners (Gen.blockPartitionerInit (ints shape) (b : Int)).2 (ptypeCode pt) c =
+      (Shapes.shapesForPreconditioners pt c.natAbs shape b).map (fun p => [(p.1 : Int), (p.2 : Int)]) := by
+  rw [blockPartitionerInit_bridge]
+  exact shapesForPreconditioners_bridge (Shapes.splitAll shape b) pt c
+
+/-- `Preconditioner.exponent_for_preconditioner` as translated never yields `None` and equals
+`Shapes.exponentForPreconditioner` at `rank = len(split_sizes)`. -/
+theorem exponent_for_preconditioner_bridge (ss : List (List Int)) (pt : Shapes.PType) :
+    Gen.exponentForPreconditioner ss (ptypeCode pt) =
+      some ((Shapes.exponentForPreconditioner pt ss.length : Nat) : Int) :=
+  exponent_bridge ss pt
+
+/-- `Preconditioner._preconds_for_grad` as translated: whenever the slice `preconditioners[start:end]` has one
+entry per preconditioned axis, the `assert len(..) == rank` holds (the result is `some _`, repaired D2) and the
+result is the slice padded with `None` on the unpreconditioned axes. -/
+theorem preconds_for_grad_assert_holds (P : List (Option Int)) (pt : Shapes.PType) (rank : Nat) (s e : Int)
+    (hlen : (Gen.Py.slice P s e).length = Shapes.numPreconditioned pt rank) :
+    Gen.precondsForGrad P (ptypeCode pt) (rank : Int) s e = some (padSlots pt rank (Gen.Py.slice P s e)) :=
+  precondsForGrad_shape P pt rank s e hlen
+
+/-- … and on the list of positions `0 … n-1` with the call site's `start = i·k`, `end = (i+1)·k` it is the model's
+`Shapes.precondsForGrad pt rank i`. -/
+theorem preconds_for_grad_bridge (pt : Shapes.PType) (rank blockIx n : Nat)
+    (hn : (blockIx + 1) * Shapes.numPreconditioned pt rank ≤ n) :
+    Gen.precondsForGrad ((List.range n).map fun (j : Nat) => some (j : Int)) (ptypeCode pt) (rank : Int)
+        ((blockIx * Shapes.numPreconditioned pt rank : Nat) : Int)
+        (((blockIx + 1) * Shapes.numPreconditioned pt rank : Nat) : Int) =
+      some ((Shapes.precondsForGrad pt rank blockIx).map (Option.map fun (j : Nat) => (j : Int))) :=
+  precondsForGrad_bridge pt rank blockIx n hn
+
 /-! #### C06 theorems transported to the generated code -/
 
 /-- `C06.merge_prod` for the code as translated: merging preserves the element count. -/
@@ -104,6 +152,10 @@ example : Gen.blockPartitionerInit [7, 2] 3 = ([(0, [3, 6])], [[3, 3, 1], [2]]) 
 example : Gen.deriveShapes 4 2 [3, 1, 5, 2, 2] = ([3, 1, 5, 2, 2], [3, 5, 4], [4, 6, 4]) := by decide
 example : Gen.blocksMetadata 2 [4, 1, 6] = ([2, 1, 2], 6, 2, [4, 1, 6], [0, 2], [2, 3], 0) := by rfl
 example : Gen.shouldPreconditionDims [[3], [2]] 2 = some [true, false] := by decide
+example : Gen.shapesForPreconditioners [[3, 1], [2]] 2 (-1) = [[3, 3], [1, 1]] := by decide
+example : Gen.exponentForPreconditioner [[3], [2], [2]] 3 = some 2 := by decide
+example : Gen.precondsForGrad [some 0, some 1, some 2, some 3] 2 3 2 4 = some [some 2, some 3, none] := by decide
+example : Gen.precondsForGrad [some 0, some 1] 2 3 0 1 = none := by decide
 
 end PrecondVerif.GenProps.C06
 
@@ -150,6 +202,131 @@ theorem to_pad_minimal (n D : Nat) (hD : 0 < D) (r : Int) (hr : 0 ≤ r) (hdvd :
     Gen.toPad (n : Int) (D : Int) ≤ r :=
   toPad_minimal n D hD r hr hdvd
 
+/-- `Gen.toPad` = `Devices.toPad` (the C13 model's `(D - n % D) % D`) for every positive device count. -/
+theorem to_pad_devices_bridge (n D : Nat) (hD : 0 < D) :
+    Gen.toPad (n : Int) (D : Int) = ((Devices.toPad n D : Nat) : Int) :=
+  toPad_devices n D hD
+
 example : Gen.toPad 5 4 = 3 ∧ Gen.toPad 8 4 = 0 ∧ Gen.toPad 0 3 = 0 := by decide
 
 end PrecondVerif.GenProps.C13
+
+namespace PrecondVerif.GenProps.C02
+open PrecondVerif PrecondVerif.GenBridge
+
+/-! The geometry `Model/DShampoo.lean` (`Geom`) is built from: merged shape, block sizes, preconditioned axes,
+exponent, slot lists — as regenerated from the source. -/
+
+theorem merge_small_dims_bridge (s : List Nat) (m : Nat) :
+    Gen.mergeSmallDims (ints s) (m : Int) = ints (Shapes.mergeSmallDims s m) :=
+  mergeSmallDims_bridge s m
+
+theorem split_sizes_bridge (shape : List Nat) (b : Nat) :
+    (Gen.blockPartitionerInit (ints shape) (b : Int)).2 = (Shapes.splitAll shape b).map ints := by
+  rw [blockPartitionerInit_bridge]
+
+theorem should_precondition_dims_bridge (ss : List (List Int)) (pt : Shapes.PType) :
+    Gen.shouldPreconditionDims ss (ptypeCode pt) = some (Shapes.shouldPreconditionDims pt ss.length) :=
+  shouldPreconditionDims_bridge ss pt
+
+/-- the exponent `Geom.exponent` uses when not overridden. -/
+theorem exponent_for_preconditioner_bridge (ss : List (List Int)) (pt : Shapes.PType) :
+    Gen.exponentForPreconditioner ss (ptypeCode pt) =
+      some ((Shapes.exponentForPreconditioner pt ss.length : Nat) : Int) :=
+  exponent_bridge ss pt
+
+theorem preconds_for_grad_bridge (pt : Shapes.PType) (rank blockIx n : Nat)
+    (hn : (blockIx + 1) * Shapes.numPreconditioned pt rank ≤ n) :
+    Gen.precondsForGrad ((List.range n).map fun (j : Nat) => some (j : Int)) (ptypeCode pt) (rank : Int)
+        ((blockIx * Shapes.numPreconditioned pt rank : Nat) : Int)
+        (((blockIx + 1) * Shapes.numPreconditioned pt rank : Nat) : Int) =
+      some ((Shapes.precondsForGrad pt rank blockIx).map (Option.map fun (j : Nat) => (j : Int))) :=
+  precondsForGrad_bridge pt rank blockIx n hn
+
+end PrecondVerif.GenProps.C02
+
+namespace PrecondVerif.GenProps.C05
+open PrecondVerif PrecondVerif.GenBridge
+
+/-- `_skip_preconditioning` (closure of `distributed_shampoo`) as translated = `Graft.dsSkip`. -/
+theorem ds_skip_bridge (rankLt dimGt : Nat) (shape : List Nat) :
+    Gen.dsSkipPreconditioning (rankLt : Int) (dimGt : Int) (ints shape) = Graft.dsSkip rankLt dimGt shape :=
+  dsSkip_bridge rankLt dimGt shape
+
+/-- the predicate of tearfree `grafting._mask_skipped` (`_maybe_mask` returns the mask) = `Graft.tfMaskSkipped`. -/
+theorem tf_mask_skipped_bridge (rank1 : Bool) (anyDimGt : Nat) (shape : List Nat) :
+    Gen.tfMaskSkipped rank1 (anyDimGt : Int) (ints shape) = Graft.tfMaskSkipped rank1 anyDimGt shape :=
+  tfMaskSkipped_bridge rank1 anyDimGt shape
+
+example : Gen.dsSkipPreconditioning 2 4096 [5] = true ∧ Gen.dsSkipPreconditioning 1 4 [2, 5] = true ∧
+    Gen.dsSkipPreconditioning 1 4 [2, 4] = false := by decide
+example : Gen.tfMaskSkipped true 4096 [7] = true ∧ Gen.tfMaskSkipped false 4096 [7] = false := by decide
+
+end PrecondVerif.GenProps.C05
+
+namespace PrecondVerif.GenProps.C07
+open PrecondVerif PrecondVerif.GenBridge
+
+/-! `Model/Layout.lean` computes the state layout from these `Model/Shapes.lean` functions; the bridges make the
+layout theorems speak about the shape bookkeeping as translated today. -/
+
+theorem merge_small_dims_bridge (s : List Nat) (m : Nat) :
+    Gen.mergeSmallDims (ints s) (m : Int) = ints (Shapes.mergeSmallDims s m) :=
+  mergeSmallDims_bridge s m
+
+theorem shapes_for_preconditioners_bridge (shape : List Nat) (b : Nat) (pt : Shapes.PType) (c : Int) :
+    Gen.shapesForPreconditioners (Gen.blockPartitionerInit (ints shape) (b : Int)).2 (ptypeCode pt) c =
+      (Shapes.shapesForPreconditioners pt c.natAbs shape b).map (fun p => [(p.1 : Int), (p.2 : Int)]) :=
+  C06.shapes_for_preconditioners_of_partitioner shape b pt c
+
+theorem precond_dim_bridge (c : Int) (d : Nat) :
+    Gen.precondDim c (d : Int) = ((Shapes.precondDim c.natAbs d : Nat) : Int) :=
+  precondDim_bridge c d
+
+theorem derive_shapes_bridge (mergeDims blockSize : Nat) (shape : List Nat) :
+    Gen.deriveShapes (mergeDims : Int) (blockSize : Int) (ints shape) =
+      (ints (Shapes.deriveShapes mergeDims blockSize shape).original,
+       ints (Shapes.deriveShapes mergeDims blockSize shape).merged,
+       ints (Shapes.deriveShapes mergeDims blockSize shape).padded) :=
+  deriveShapes_bridge mergeDims blockSize shape
+
+theorem blocks_metadata_bridge (blockSize : Nat) (shape : List Nat) :
+    Gen.blocksMetadata (blockSize : Int) (ints shape) =
+      (let m := Shapes.blocksMetadata blockSize shape
+       (ints m.blockSizes, (m.numBlocks : Int), (m.largeBlockSize : Int), ints m.paramShape, ints m.largeAxes,
+        ints m.blocksPerLargeAxis, (m.blocksAxis : Int))) :=
+  blocksMetadata_bridge blockSize shape
+
+end PrecondVerif.GenProps.C07
+
+namespace PrecondVerif.GenProps.C12
+open PrecondVerif PrecondVerif.GenBridge
+
+/-- `sm3._get_expanded_shape(shape, i)` as translated (direct theorem, `Model/SM3.lean` works on indices and has no
+shape helper): ones everywhere except `shape[i]` at position `i`, so reshaping accumulator `i` to it broadcasts
+along every other axis (`SM3.coverVals` reads accumulator `i` at `idx[i]`). -/
+theorem sm3_expanded_shape (shape : List Nat) (i : Nat) (hi : i < shape.length) :
+    Gen.sm3ExpandedShape (ints shape) (i : Int) =
+      ints (List.replicate i 1 ++ [shape.getD i 0] ++ List.replicate (shape.length - i - 1) 1) :=
+  sm3ExpandedShape_eq shape i hi
+
+/-- it has the rank of the gradient and the element count of accumulator `i`. -/
+theorem sm3_expanded_shape_rank_and_count (shape : List Nat) (i : Nat) (hi : i < shape.length) :
+    (Gen.sm3ExpandedShape (ints shape) (i : Int)).length = shape.length ∧
+      Gen.Py.prod (Gen.sm3ExpandedShape (ints shape) (i : Int)) = ((shape.getD i 0 : Nat) : Int) := by
+  rw [sm3ExpandedShape_eq shape i hi, py_prod_eq]
+  refine ⟨by simp; omega, ?_⟩
+  congr 1
+  have hrep : ∀ n : Nat, Shapes.prod (List.replicate n 1) = 1 := by
+    intro n; induction n with
+    | zero => rfl
+    | succ n ih => simp [List.replicate_succ, ih]
+  have happ : ∀ a b : List Nat, Shapes.prod (a ++ b) = Shapes.prod a * Shapes.prod b := by
+    intro a b; induction a with
+    | nil => simp
+    | cons x xs ih => simp [ih, Nat.mul_assoc]
+  simp [happ, hrep]
+
+example : Gen.sm3ExpandedShape [4, 5, 6] 1 = [1, 5, 1] := by decide
+
+end PrecondVerif.GenProps.C12
